@@ -19,6 +19,6 @@ for f in $flavs; do
 done
 VERIF_REPO="$S/repo" VERIF_BUILD="$S/build" VERIF_OUT="$S/out" /verif/check.sh "$prop" "$tier" "$@" > "$S/log" 2>&1
 rc=$?
-grep -E "^(VIOLATION|KNOWN-FINDING|HARNESS-ERROR|summary|  class=|  detail)" "$S/log" | cut -c1-300
+grep -E "^(VIOLATION|KNOWN-FINDING|HARNESS-ERROR|BUILD-FAILED|summary|  class=|  detail)|error:" "$S/log" | cut -c1-300 | head -40
 echo "SENSITIVITY patch=$(basename "$patch") property=$prop exit=$rc"
 exit $rc
